@@ -1,8 +1,41 @@
-(* C13 — antes and blinds are posted in the right amounts. *)
-From PF Require Import Base ModelGame ProofsChips.
+(* C13 — antes and blinds are posted by the right seats in the right amounts.
+   The two theorems describe PayAnte and PayBlinds from any state in which every seat satisfies the chip
+   identity and has nothing in front of it (which is the case when the engine asks for antes / blinds). *)
+From PF Require Import Base ModelGame ProofsChips ProofsInv ProofsBlinds.
 
-(* a forced payment adds exactly the amount, capped at what the player has, to the wager and
-   nothing to the pot *)
+(* every player pays the ante, capped at what he has; it goes straight to the pot and does not count
+   toward the wager to match *)
+Theorem C13_ante :
+  forall g, st_event (g_st g) = EvAnteRequested -> 0 < m_ante (g_meta g) ->
+    (forall i, (i < nplayers g)%nat -> seat_ok (get_p g i) /\ p_wager (get_p g i) = 0) ->
+    let g' := fst (do_pay_ante g) in
+    nplayers g' = nplayers g /\ st_cw (g_st g') = 0 /\
+    forall i, (i < nplayers g)%nat ->
+      p_pot (get_p g' i) = p_pot (get_p g i) + Z.min (m_ante (g_meta g)) (p_stack (get_p g i)) /\
+      p_wager (get_p g' i) = 0 /\
+      p_stack (get_p g' i) = p_stack (get_p g i) - Z.min (m_ante (g_meta g)) (p_stack (get_p g i)).
+Proof. exact pay_ante_result. Qed.
+Print Assumptions C13_ante.
+
+(* the holders of big blind, small blind and dealer blind post their blind (one blind per seat, priority
+   bb > sb > dealer) capped at what they have, nobody else posts anything (blind_chips is 0 for a seat
+   without a position); the wager to match is the largest blind actually posted; the minimum raise is
+   the big blind (the dealer blind when there is no big blind) *)
+Theorem C13_blinds :
+  forall g, st_event (g_st g) = EvBlindsRequested -> meta_ok (g_meta g) -> st_cw (g_st g) = 0 ->
+    (forall i, (i < nplayers g)%nat -> seat_ok (get_p g i) /\ p_wager (get_p g i) = 0) ->
+    let g' := fst (do_pay_blinds g) in
+    let posted i := blind_chips (g_meta g) (get_p g i) in
+    nplayers g' = nplayers g /\
+    (forall i, (i < nplayers g)%nat ->
+       p_wager (get_p g' i) = posted i /\ p_stack (get_p g' i) = p_stack (get_p g i) - posted i /\
+       p_pot (get_p g' i) = p_pot (get_p g i)) /\
+    (forall i, (i < nplayers g)%nat -> posted i <= st_cw (g_st g')) /\
+    (st_cw (g_st g') = 0 \/ exists i, (i < nplayers g)%nat /\ st_cw (g_st g') = posted i) /\
+    st_prs (g_st g') = (if 0 <? m_bbb (g_meta g) then m_bbb (g_meta g) else m_bdealer (g_meta g)).
+Proof. exact pay_blinds_result. Qed.
+Print Assumptions C13_blinds.
+
 Theorem C13_forced_payment_capped_at_stack :
   forall g i chips is_wager,
     (i < nplayers g)%nat -> seat_ok (get_p g i) ->
@@ -12,7 +45,6 @@ Theorem C13_forced_payment_capped_at_stack :
 Proof. exact pay_wager. Qed.
 Print Assumptions C13_forced_payment_capped_at_stack.
 
-(* one blind per seat, by the priority big blind > small blind > dealer blind *)
 Theorem C13_blind_priority :
   forall m p,
     blind_of m p =
@@ -22,3 +54,13 @@ Theorem C13_blind_priority :
     else (0, LDealerBlind).
 Proof. reflexivity. Qed.
 Print Assumptions C13_blind_priority.
+
+(* the known finding F10 on the model: with dealer blind 0, small blind 0 and a big blind the engine
+   goes from the deal straight to "ready" — the blinds are never requested *)
+Example C13_F10_witness :
+  let c := mkCfg 0 0 0 2 false 2 0 [] (seqZ_from 0 30) 1
+                 [(40, (true, false, false)); (30, (false, true, false)); (25, (false, false, true))] in
+  exists g, create c (seqZ_from 0 30) = (g, Ok) /\
+            st_event (g_st (run g [OReady])) = EvReadyRequested /\ st_round (g_st (run g [OReady])) = Preflop /\
+            map p_wager (g_players (run g [OReady])) = [0; 0; 0].
+Proof. eexists. split; [vm_compute; reflexivity|]. vm_compute. auto. Qed.
